@@ -65,9 +65,10 @@ fn proj_path(s: &Subject<Ep>, p: &str) -> Value {
         None => json!({"p": p, "present": false, "seq": 0, "obs": []}),
         Some(r) => {
             let obs: Vec<Value> = r.observers.iter().map(|o| {
+                // Observe!ObsView: the pending id of an observer whose count is 0 cannot be observed
                 let mid = match o.verif_pending_message_id() {
-                    None => json!({"some": false}),
-                    Some(m) => json!({"some": true, "v": m}),
+                    Some(m) if o.verif_unacknowledged() > 0 => json!({"some": true, "v": m}),
+                    _ => json!({"some": false}),
                 };
                 json!({"ep": o.endpoint, "tok": jbytes(&o.token), "unacked": o.verif_unacknowledged(), "mid": mid})
             }).collect();
